@@ -772,14 +772,15 @@ fn kdoc(k: usize, f: impl Fn(&B)) {
 }
 //@ props: C06, C07
 //@ timeout: 1800
-//@ harness: c06_delpath_i, c06_delpath_ii, c06_delpath_iix
+//@ harness: c06_delpath_i, c06_delpath_ii, c06_delpath_iiy, c06_delpath_iix
 //@ desc: delete_by_keypath through arrays: {i} with i in {0,-1,2} on [n,null]; {i,j} with (i,j) in {(0,0),(0,-1),(1,0),(0,5)} on [[n,s]] (into the nested array, into a scalar, past the end) and {(0,0),(1,0)} on [[],s]: the addressed element is removed (negative indices from the end); paths that do not resolve or run into/past scalars leave the document unchanged
 //@ fns: delete_by_keypath, delete_by_keypath_jsonb, delete_jsonb_array_by_keypath, ArrayBuilder::push_array, ArrayBuilder::build_into
 //@ bounds: paths <= 2 index elements, depth 2; representative indices
 //@ stubs: parse_value, from_slice -> panic | drop_in_place -> no-op | ObjectBuilder::build_into -> panic in array-only instances (proves the object arm of write_entry is not taken)
 //@ outside: key paths through objects (ObjectBuilder: not reached)
 harness!(c06_delpath_i, split1(3, |k| kdoc(0, |d| del_keypath_run(d, 0, [0, -1, 2][k], 0))));
-harness2!(c06_delpath_ii, split1(4, |k| kdoc(1, |d| del_keypath_run(d, 2, [0, 0, 1, 0][k], [0, -1, 0, 5][k]))));
+harness2!(c06_delpath_ii, split1(2, |k| kdoc(1, |d| del_keypath_run(d, 2, 0, [0, -1][k]))));
+harness2!(c06_delpath_iiy, split1(2, |k| kdoc(1, |d| del_keypath_run(d, 2, [1, 0][k], [0, 5][k]))));
 harness2!(c06_delpath_iix, split1(2, |k| kdoc(2, |d| del_keypath_run(d, 2, [0, 1][k], 0))));
 
 //@ props: C06
